@@ -249,8 +249,6 @@ class Sim:
         if not self.s["accounting"]:
             return 1, "", "sacct: error: Slurm accounting storage is disabled\n"
         ids = [x for x in (jobs or "").split(",") if x != ""] if jobs is not None else [j["id"] for j in self.jobs()]
-        if len(ids) > 1024:
-            return 1, "", "sacct: error: Too many job ids in one request\n"
         cols = [c.strip().lower() for c in fmt.split(",")]
         out = []
         sep = "|" if p2 else " "
@@ -258,7 +256,7 @@ class Sim:
             out.append(sep.join(c for c in cols))
         for i in ids:
             j = self.s["jobs"].get(i)
-            if j is None:
+            if j is None or j.get("acct_hidden"):
                 continue
             st = self._slurm_code(j, long=True, acct=True)
             rows = [(j["id"], st)]
